@@ -1,2 +1,32 @@
-(* C02 -- placeholder until the segmentation theorem is in place *)
-Theorem C02_placeholder : True. Proof. exact I. Qed.
+(* C02 -- the event stream does not depend on how TCP segments the byte stream.  Statements only. *)
+From Coq Require Import List NArith.
+From Coq.Strings Require Import Byte.
+From Model Require Import Bytes Parser FrameParser Conn.
+From Proofs Require Import ParserFacts FrameParserFacts ConnFacts.
+Import ListNotations.
+
+(* the coroutine parser (lomond/parser.py) instantiated with the frame grammar: pulling from a ++ b is pulling from a
+   and, when a ends inside an item, carrying on with b from the parked state -- for every cut position, inside the HTTP
+   header, a frame header, an extended length, a payload or a UTF-8 character, for valid and invalid streams alike *)
+Theorem C02_parser_segmentation : forall s a b, fp_ok s ->
+  fp_pull s (a ++ b) = out_app fpg pitem perr (fp_pull s a) b (fun s' => fp_pull s' b).
+Proof. exact fp_pull_split. Qed.
+Print Assumptions C02_parser_segmentation.
+
+(* the whole receive path (parser, fragment reassembly, message building, WebSocket.feed's dispatch and error handling,
+   the session's per-event work: auto-pong, timers, and ANY application strategy reacting to what it has observed):
+   the resulting state -- which contains the complete trace of events, payloads and bytes written -- after feeding the
+   reads ds one after the other equals the state after feeding their concatenation in one piece *)
+Theorem C02_feed_chunks : forall cf app ds c, fp_ok (k_ps c) ->
+  feed_chunks cf app c ds = feedf cf app c (concat ds).
+Proof. exact feed_chunks_concat. Qed.
+Print Assumptions C02_feed_chunks.
+
+Theorem C02_segmentation_independent : forall cf app ds ds' c, fp_ok (k_ps c) -> concat ds = concat ds' ->
+  feed_chunks cf app c ds = feed_chunks cf app c ds'.
+Proof. exact segmentation_independent. Qed.
+Print Assumptions C02_segmentation_independent.
+
+(* the hypothesis is met by every connection from its start *)
+Example C02_initial_state_ok : forall keys wf zt ct, fp_ok (k_ps (init keys wf zt ct)).
+Proof. intros. exact fp_init_ok. Qed.
